@@ -100,14 +100,23 @@ pub fn compare(c: &Case, full: &ObsVoronoi, kappa: &[(f64, f64, f64)], mask: &[b
                     }
                 }
                 None => {
-                    if *a > thr {
+                    // (a sliver that one side integrates to rounding noise may be absent on the other)
+                    let slack = match k.0 {
+                        Some(j) => (kappa[i].1 + kappa[j].1) * crate::cellinfo::face_perimeter_bound(c.d(), kappa[i].2.min(kappa[j].2)),
+                        None => 2. * kappa[i].1 * crate::cellinfo::face_perimeter_bound(c.d(), kappa[i].2),
+                    };
+                    if *a > thr + slack {
                         return Err(format!("selected cell {i}: face towards {:?} (area {:e}) of the full build is absent from the partial build", k, a));
                     }
                 }
             }
         }
         for (k, (b, _)) in &pf {
-            if !ff.contains_key(k) && *b > thr {
+            let slack = match k.0 {
+                Some(j) => (kappa[i].1 + kappa[j].1) * crate::cellinfo::face_perimeter_bound(c.d(), kappa[i].2.min(kappa[j].2)),
+                None => 2. * kappa[i].1 * crate::cellinfo::face_perimeter_bound(c.d(), kappa[i].2),
+            };
+            if !ff.contains_key(k) && *b > thr + slack {
                 return Err(format!("selected cell {i}: face towards {:?} (area {:e}) is absent from the full build", k, b));
             }
         }
